@@ -76,6 +76,13 @@ var (
 	tAAg   = u.F("tAAg", "", "{A;A+g;A@n}")
 	tAB    = u.F("tAB", "", "A,B")
 	tAasAA = u.F("tAasAA", "", "A,A", u.As("IA")) // duplicate under the As key
+	// As applied to the fields of a result object (the same object type with
+	// different As lists, and without)
+	tAasI   = u.F("tAasI", "", "{A}", u.As("IA"))
+	tAasIAB = u.F("tAasIAB", "", "{A}", u.As("IAB"))
+	tAnnAsI = u.F("tAnnAsI", "", "{{A@n}}", u.As("IA"))
+	tABasI  = u.F("tABasI", "", "{A;{A@n}}", u.As("IA", "IAB"))
+	tAB2    = u.F("tAB2", "", "{A;{A@n}}")
 	// probes
 	qI      = u.F("qI", "IA", "")
 	qII     = u.F("qII", "IAB", "")
@@ -117,6 +124,7 @@ func c09Units(tier string) []Unit {
 	add("as-on-interfaces", ifaces, 3)
 	add("tags-and-nesting", tags, 3)
 	add("duplicates", dups, 3)
+	add("as-on-result-objects", []*uFunc{tA, tAasI, tAasIAB, tAnn, tAnnAsI, tABasI, tAB2}, 3)
 	if !q {
 		add("options-4", []*uFunc{kA, kAn, kAg, kAasI, kAnAsI, kAgAsI}, 4)
 		add("mixed-4", []*uFunc{kA, kIboth, kIgBoth, tAnn, tAAn, tAasAA}, 4)
